@@ -64,6 +64,7 @@ class Node:
 class World:
     def __init__(self, config, shadow=True):
         self.lib = loader.load()
+        self.lib.trip._ctr = 0        # the tripwire's answer stream restarts with every run
         self.config = config
         self.psets = config["psets"]
         self.shadow = shadow
